@@ -19,7 +19,7 @@ def flat(o):
     return [np.asarray(o, dtype=float)]
 
 
-def agree(a, b, exact=False):
+def agree(a, b, exact=False, tol=cc.TOL):
     a, b = flat(a), flat(b)
     if len(a) != len(b):
         return False
@@ -29,7 +29,7 @@ def agree(a, b, exact=False):
         if exact:
             if not np.array_equal(x, y, equal_nan=True):
                 return False
-        elif not np.allclose(x, y, rtol=0, atol=cc.TOL, equal_nan=True):
+        elif not np.allclose(x, y, rtol=0, atol=tol, equal_nan=True):
             return False
     return True
 
@@ -117,11 +117,19 @@ MODEL_OPS = {
 _TIMEOUTS = {}      # per worker process: label -> number of watchdog hits (a hanging routine must not stall the whole check)
 
 
-def run_pair(label, f, g, Wf, pred, exact, cond, res, t=2.5):
+def run_pair(label, f, g, Wf, pred, exact, cond, res, t=2.5, rep=None):
     if _TIMEOUTS.get(label, 0) >= 2:
         res['skipped'] += 1; return
-    s1, o1 = call(f, Wf.copy(), t=t)
-    s2, o2 = ('timeout', None) if s1 == 'timeout' else call(g, Wf.copy(), t=t)
+    tol = cc.TOL
+    if rep:     # the same network stored in another dtype / memory layout: a fresh array per call, never normalised by a copy
+        mk = lambda: cc.represent(Wf, rep['dtype'], rep['order'])
+        tol = cc.rep_tol(rep['dtype']); exact = exact and rep['dtype'] != 'float32'
+    else:
+        mk = lambda: Wf.copy()
+    s1, o1 = call(f, mk(), t=t)
+    s2, o2 = ('timeout', None) if s1 == 'timeout' else call(g, mk(), t=t)
+    if rep and ((s1 == 'exc' and cc.rejected_exc(rep['dtype'], o1)) or (s2 == 'exc' and cc.rejected_exc(rep['dtype'], o2))):
+        res['rejected'] += 1; return      # one variant visibly rejects this storage type: no claim
     res['npairs'] += 1
     if s1 == 'timeout' or s2 == 'timeout':
         # these routines are deterministic and finish in milliseconds at n <= 10: a variant that does not return does not
@@ -133,7 +141,7 @@ def run_pair(label, f, g, Wf, pred, exact, cond, res, t=2.5):
         res['both_raise'][label] = res['both_raise'].get(label, 0) + 1; return
     if s1 != 'ok' or s2 != 'ok':
         res['fails'].append((label, pred, {'first': o1 if s1 != 'ok' else 'ok', 'second': o2 if s2 != 'ok' else 'ok'}, cond)); return
-    if not agree(o1, o2, exact):
+    if not agree(o1, o2, exact, tol):
         res['fails'].append((label, pred, {'first': short(o1), 'second': short(o2)}, cond))
     elif any(np.any(np.nan_to_num(x, nan=0.0, posinf=0.0) != 0) for x in flat(o1)):
         res['nonzero'] = True
@@ -145,14 +153,17 @@ def run_case(case):
     kind = case['kind']; n = len(W)
     Wf = cc.fl(W)
     sym = cc.is_sym(W)
-    res = {'fails': [], 'npairs': 0, 'timeouts': 0, 'skipped': 0, 'both_raise': {}, 'nonzero': False, 'model': [], 'model_fail': []}
-    cond = {'symmetric': sym}
+    res = {'fails': [], 'npairs': 0, 'timeouts': 0, 'skipped': 0, 'rejected': 0, 'both_raise': {}, 'nonzero': False, 'model': [], 'model_fail': []}
+    rep = case.get('rep')
+    cond = {'symmetric': sym, 'dtype': rep['dtype'] if rep else 'float64', 'order': rep['order'] if rep else 'C'}
     if kind in ('01u', '01d'):
         for label, f, g, exact in pairs_on01(bct, sym):
-            run_pair(label, f, g, Wf, P01, exact, dict(cond, pair=label), res)
+            run_pair(label, f, g, Wf, P01, exact, dict(cond, pair=label), res, rep=rep)
     if kind in ('01u', 'symw', 'symg'):
         for label, f, g, exact in pairs_symm(bct, cc.is_bin(W)):
-            run_pair(label, f, g, Wf, PSYM, exact, dict(cond, pair=label), res)
+            run_pair(label, f, g, Wf, PSYM, exact, dict(cond, pair=label), res, rep=rep)
+    if rep:
+        return res      # representation cases: pair predicates only (the model correspondence runs on the float64 original)
     if kind in ('ignu', 'ignd'):
         Bf = (Wf != 0).astype(float)
         for label, f in ignoring(bct, sym, n):
@@ -225,6 +236,7 @@ def gen_cases(rs, tier):
             add('01u', M, 'struct-' + tag)
         for tag, M in cc.structured(rs, n, True):
             add('01d', M, 'struct-' + tag)
+    cases += cc.add_reps(rs, cases, .3 if thorough else .2, ('01u', '01d'), ('symw', 'symg'))
     return cases
 
 
@@ -253,6 +265,9 @@ def main():
     for c, r in zip(cases, results):
         W, _ = cc.case_mats(c)
         ck.count('kind:' + c['kind']); ck.count('n=%d' % len(W)); ck.count('pairs evaluated', r['npairs']); ck.count('timeouts', r['timeouts']); ck.count('pairs skipped after repeated timeouts', r['skipped'])
+        if c.get('rep'):
+            ck.count('representation:%s/%s' % (c['rep']['dtype'], c['rep']['order']))
+            ck.count('storage type rejected by one variant (OverflowError on int / TypeError on bool): no claim', r['rejected'])
         for k, v in r['both_raise'].items():
             ck.count('both-raise:' + k, v)
         ck.case(sample={'kind': c['kind'], 'tag': c['tag'], 'W': cc.fstr(W), 'pairs': r['npairs']} if r['nonzero'] else None,
